@@ -54,14 +54,27 @@ def run_check(prop, tier, seed):
                 e = dict(os.environ)
                 e["PYTHONHASHSEED"] = str((seed + g) % (2 ** 32))
                 e["VERIF_SEED"] = str(seed)
+                e["VERIF_SHARED"] = tmp
                 cmd = [sys.executable, "-u", "-B", "-m", "mc.worker", prop, tier,
                        str(s), str(per_group), str(g), str(groups), str(seed), out]
                 log = open(os.path.join(tmp, "w%d_%d.log" % (g, s)), "wb")
                 procs.append((subprocess.Popen(cmd, cwd=VERIF, env=e, stdout=log, stderr=subprocess.STDOUT), out, log))
         results = []
         harness_errors = []
+        # wait for all workers; if one dies without a result, stop the rest (they may be waiting
+        # for it at a barrier)
+        pending = list(procs)
+        while pending:
+            for item in list(pending):
+                p, out, log = item
+                if p.poll() is not None:
+                    pending.remove(item)
+                    if not os.path.exists(out):
+                        for q, _, _ in pending:
+                            q.kill()
+            time.sleep(0.05)
         for p, out, log in procs:
-            rc = p.wait()
+            rc = p.returncode
             log.close()
             if os.path.exists(out):
                 with open(out, "rb") as f:
